@@ -1,78 +1,221 @@
-import RV.Lemmas.Arith
+import RV.Lemmas.BatchCtx
 /-!
 # C01 — pod exposure never exceeds what the current step allows
 
-Part 1 (arithmetic bound, CloneSet / StatefulSet-like partition written for a
-plan entry).  Further parts are added in later sections of this file.
+Part 1–2: one `CalculateBatchContext` + `UpgradeBatch` decision, every workload kind,
+every replica count, every plan entry (ints, percents, malformed strings), every
+current knob value.  The oracles `exposureBound` / `monotone` are the ones the driver
+evaluates on the implementation's writes (RV/Oracle/Batch.lean).
 -/
 namespace RV.Props.C01
-open RV.Arith IntOrPct
+open RV.Arith IntOrPct RV.BatchCtx RV.Oracle.Batch
 
-/-- The partition the CloneSet control writes for plan entry `e` at size `R`
-    (no no-need-update pods):  `partitionstyle/cloneset/control.go:CalculateBatchContext`. -/
-def cloneSetPartition (R : Int) (e : IntOrPct) : IntOrPct :=
-  let stable := R - calcBatchReplicas R e
-  match e with
-  | int _ => int stable
-  | _ => parsePct stable R e
+def partitionKind : Kind → Bool
+  | .cloneSet | .stsOrdered | .stsUnordered | .daemonSet => true
+  | _ => false
 
-/-- **C01.1 (CloneSet, integer plan entries): exposure is exactly the planned count.** -/
-theorem cloneSet_int_exact (R n : Int) (hR : 0 ≤ R) :
-    exposure (cloneSetPartition R (int n)) R = calcBatchReplicas R (int n) := by
-  have h1 := calcBatch_nonneg R (int n) hR
-  have h2 := calcBatch_le R (int n) hR
-  simp only [cloneSetPartition, exposure, keptStable, scaledV, scaled]
-  omega
+/-- Inputs the controls can see: a non-negative size; a no-need-update count (only the
+    partition-style control plane sets one) between 0 and the size. -/
+def NnValid (kind : Kind) (R : Int) (nn : Option Int) : Prop :=
+  0 ≤ R ∧ (∀ k, nn = some k → 0 ≤ k ∧ k ≤ R) ∧ (partitionKind kind = true ∨ nn = none)
 
-/-- **C01.1 (CloneSet, percent plan entries): exposure exceeds the planned count
-    by strictly less than 1 % of the workload size**, for every size and every
-    percent (also > 100 and negative ones, which the clamp absorbs). -/
-theorem cloneSet_pct_slack (R p : Int) (hR : 0 < R) :
-    100 * (exposure (cloneSetPartition R (pct p)) R - calcBatchReplicas R (pct p)) < R := by
-  have h1 := calcBatch_nonneg R (pct p) (by omega)
-  have h2 := calcBatch_le R (pct p) (by omega)
-  generalize hplanned : calcBatchReplicas R (pct p) = planned at *
-  simp only [cloneSetPartition, hplanned, parsePct]
-  split
-  · -- stable ≥ all : "100%"
-    simp only [exposure, keptStable, scaledV, scaled, if_true]
-    have := ceilDiv100_mul100 R; omega
-  · split
-    · -- stable ≤ 0 : "0%"
-      simp only [exposure, keptStable, scaledV, scaled, if_true, Int.zero_mul]
-      have : ceilDiv100 0 = 0 := by decide
-      omega
-    · rename_i hs1 hs2
-      have hs : 0 < R - planned := by omega
-      have htd : ((R - planned) * 100).tdiv R = (100 * (R - planned)) / R := by
-        rw [tdiv_pos_eq (by omega) hR, Int.mul_comm]
-      have hb := floor_bracket (s := R - planned) hR
-      generalize hq : (100 * (R - planned)) / R = q at *
-      simp only [htd, scaledV, scaled, if_true]
-      have hc1 := ceilDiv100_ge (q * R)
-      have hc2 := ceilDiv100_lt (q * R)
-      split
-      · -- "1%" fallback
-        simp only [exposure, keptStable, scaledV, scaled, if_true, Int.one_mul]
-        have := ceilDiv100_ge R
-        have := ceilDiv100_lt R
+/-- **C01.1** — the knob value computed for plan entry `e` exposes at most the pods the step
+    allows (`CalculateBatchReplicas`; `k` rolled-back pods count as already updated), except
+    that a CloneSet percent partition may exceed it by strictly less than 1 % of the size. -/
+theorem desKnob_exposure_bound (kind : Kind) (R : Int) (e : IntOrPct) (nn : Option Int)
+    (hv : NnValid kind R nn) : exposureBound kind R e nn (desKnob kind R e nn) = true := by
+  obtain ⟨hR, hk, hpk⟩ := hv
+  obtain ⟨hs0, hs1, _, hal⟩ := plannedDesired_facts R e nn hR hk
+  have hcb0 := calcBatch_nonneg R e hR
+  have hcb1 := calcBatch_le R e hR
+  generalize hds : desiredStable R e nn = ds at *
+  cases kind
+  case cloneSet =>
+    cases e with
+    | int n =>
+      simp only [exposureBound, desKnob, hds, isStr, exposureOf, Bool.false_eq_true, and_false,
+        if_false, decide_eq_true_eq]
+      rw [exposure_int ds _ hs0 hs1]; omega
+    | pct p =>
+      simp only [exposureBound, desKnob, hds, isStr, exposureOf, and_self, if_true, decide_eq_true_eq]
+      by_cases hR0 : 0 < R
+      · have := parsePct_slack ds R (pct p) hR0 hs0 hs1
         omega
-      · simp only [exposure, keptStable, scaledV, scaled, if_true]
+      · have hR00 : R = 0 := by omega
+        have hds0 : ds = 0 := by omega
+        subst hR00 hds0
+        simp only [parsePct, exposure, keptStable, scaledV, scaled]
         omega
+    | bad =>
+      simp only [exposureBound, desKnob, hds, isStr, exposureOf, and_self, if_true, decide_eq_true_eq]
+      by_cases hR0 : 0 < R
+      · have := parsePct_slack ds R bad hR0 hs0 hs1
+        omega
+      · have hR00 : R = 0 := by omega
+        have hds0 : ds = 0 := by omega
+        subst hR00 hds0
+        simp only [parsePct, exposure, keptStable, scaledV, scaled]
+        omega
+  case stsOrdered =>
+    simp only [exposureBound, desKnob, hds, exposureOf, reduceCtorEq, false_and, if_false, decide_eq_true_eq]
+    cases nn with
+    | none => simp only []; rw [exposure_int ds _ hs0 hs1]; omega
+    | some k =>
+      have ⟨hk0, hk1⟩ := hk k rfl
+      simp only [allowed] at hal ⊢
+      simp only [exposure, keptStable_int]
+      split at hal <;> split <;> omega
+  case stsUnordered =>
+    simp only [exposureBound, desKnob, hds, exposureOf, reduceCtorEq, false_and, if_false, decide_eq_true_eq]
+    rw [exposure_int ds _ hs0 hs1]; omega
+  case daemonSet =>
+    simp only [exposureBound, desKnob, hds, exposureOf, reduceCtorEq, false_and, if_false, decide_eq_true_eq]
+    split
+    · simp only [exposure, keptStable_int]; omega
+    · rw [exposure_int ds _ hs0 hs1]; omega
+  case depPartition =>
+    have hnn : nn = none := by cases hpk with | inl h => cases h | inr h => exact h
+    subst hnn
+    simp only [exposureBound, desKnob, exposureOf, reduceCtorEq, false_and, if_false, allowed]
+    exact decide_eq_true (newRSLimit_le_calcBatch e R hR)
+  case depCanary =>
+    have hnn : nn = none := by cases hpk with | inl h => cases h | inr h => exact h
+    subst hnn
+    simp only [exposureBound, desKnob, exposureOf, reduceCtorEq, false_and, if_false, allowed, intVal]
+    exact decide_eq_true (Int.le_refl _)
+  case depBlueGreen =>
+    have hnn : nn = none := by cases hpk with | inl h => cases h | inr h => exact h
+    subst hnn
+    simp only [exposureBound, desKnob, exposureOf, reduceCtorEq, false_and, if_false, allowed]
+    apply decide_eq_true
+    clear hal hcb0 hcb1
+    simp only [calcBatchReplicas]
+    repeat' split
+    all_goals omega
+  case csBlueGreen =>
+    have hnn : nn = none := by cases hpk with | inl h => cases h | inr h => exact h
+    subst hnn
+    simp only [exposureBound, desKnob, exposureOf, reduceCtorEq, false_and, if_false, allowed]
+    apply decide_eq_true
+    clear hal hcb0 hcb1
+    simp only [calcBatchReplicas]
+    repeat' split
+    all_goals omega
 
-/-- `bad` plan entries (a non-percent string) plan 0 pods and expose 0 pods. -/
-theorem cloneSet_bad (R : Int) (hR : 0 ≤ R) :
-    exposure (cloneSetPartition R bad) R = 0 := by
-  simp only [cloneSetPartition, calcBatchReplicas, scaledV, scaled, parsePct]
-  have : ¬ ((0:Int) > R) := by omega
-  simp only [this, if_false, Int.lt_irrefl, Int.sub_zero, ge_iff_le, Int.le_refl, if_true,
-    exposure, keptStable, scaledV, scaled]
-  have := ceilDiv100_mul100 R; omega
 
-/-- non-vacuity: a concrete percent case with positive slack (R = 7, "50%": planned 4, exposed 4;
-    R = 3, "34%": planned 2, stable 1 → "33%" → kept 1). -/
-example : exposure (cloneSetPartition 3 (pct 34)) 3 = 2 ∧ calcBatchReplicas 3 (pct 34) = 2 := by decide
-example : exposure (cloneSetPartition 199 (pct 50)) 199 = 101 ∧ calcBatchReplicas 199 (pct 50) = 100 := by decide
-example : exposure (cloneSetPartition 101 (pct 50)) 101 = 51 ∧ calcBatchReplicas 101 (pct 50) = 51 := by decide
+/-- For contexts produced by `CalculateBatchContext`, whatever `UpgradeBatch` writes is the
+    context's desired knob. -/
+theorem upgrade_writes_desired (o : Obs) (c : Ctx) (w : IntOrPct)
+    (hc : calcCtx o = .ok c) (hw : upgrade o.kind c = some w) : w = c.knobDes := by
+  unfold calcCtx at hc
+  split at hc
+  · cases hc
+  · rename_i e he
+    simp only [Outcome.ok.injEq] at hc
+    subst hc
+    generalize o.kind = kind at *
+    have hsts : ∀ nn : Option Int, ∃ n, desKnob .stsOrdered o.replicas e nn = int n := by
+      intro nn; cases nn <;> exact ⟨_, rfl⟩
+    have hds : ∃ n, desKnob .daemonSet o.replicas e o.noNeedUpdate = int n := ⟨_, rfl⟩
+    cases kind <;> simp only [upgrade] at hw <;> split at hw <;>
+      first
+        | (cases hw; done)
+        | (simp only [Option.some.injEq] at hw; subst hw)
+    · rfl
+    · obtain ⟨n, hn⟩ := hsts o.noNeedUpdate; rw [hn]; rfl
+    · rfl
+    · obtain ⟨n, hn⟩ := hds; rw [hn]; rfl
+    · rfl
+    · rfl
+    · rfl
+    · rfl
+
+/-- **C01.1 (as observed on writes)** — every knob write of `UpgradeBatch` respects the
+    exposure bound of the current plan entry. -/
+theorem write_exposure_bound (o : Obs) (e : IntOrPct) (c : Ctx) (w : IntOrPct)
+    (hv : NnValid o.kind o.replicas o.noNeedUpdate) (he : o.entry = some e)
+    (hc : calcCtx o = .ok c) (hw : upgrade o.kind c = some w) :
+    exposureBound o.kind o.replicas e o.noNeedUpdate w = true := by
+  have h1 := upgrade_writes_desired o c w hc hw
+  have h2 : c.knobDes = desKnob o.kind o.replicas e o.noNeedUpdate := by
+    unfold calcCtx at hc; rw [he] at hc
+    simp only [Outcome.ok.injEq] at hc; subst hc; rfl
+  rw [h1, h2]
+  exact desKnob_exposure_bound _ _ _ _ hv
+
+/-- The knob kinds whose current value is always an integer on the object
+    (`*int32` partitions, the canary Deployment's replicas). -/
+def KnobTyped (kind : Kind) (cur : IntOrPct) : Prop :=
+  match kind with
+  | .stsOrdered | .stsUnordered | .daemonSet | .depCanary => ∃ n, cur = int n
+  | _ => True
+
+/-- monotonicity of the environment's clamp -/
+theorem keptStable_mono {a b : IntOrPct} {R : Int} (h : scaledV a R true ≤ scaledV b R true) :
+    keptStable a R ≤ keptStable b R := by
+  simp only [keptStable]; omega
+
+/-- **C01.2** — a knob write never lowers the exposure: `UpgradeBatch` only ever moves the
+    workload's update setting toward the new revision. -/
+theorem write_monotone (kind : Kind) (c : Ctx) (w : IntOrPct)
+    (ht : KnobTyped kind c.knobCur) (hd : KnobTyped kind c.knobDes)
+    (hw : upgrade kind c = some w) :
+    monotone kind c.replicas c.knobCur w = true := by
+  apply decide_eq_true
+  cases kind <;> simp only [upgrade] at hw <;> split at hw <;>
+    first
+      | (cases hw; done)
+      | skip
+  case cloneSet =>
+    rename_i hlt
+    simp only [Option.some.injEq] at hw; subst hw
+    simp only [exposureOf, exposure]
+    have : keptStable c.knobDes c.replicas ≤ keptStable c.knobCur c.replicas :=
+      keptStable_mono (by omega)
+    omega
+  case stsOrdered =>
+    rename_i hlt
+    simp only [Option.some.injEq] at hw; subst hw
+    obtain ⟨n, hn⟩ := ht
+    simp only [exposureOf, exposure, keptStable, scaledV, scaled, hn, intVal] at hlt ⊢
+    omega
+  case stsUnordered =>
+    rename_i hlt
+    simp only [Option.some.injEq] at hw; subst hw
+    obtain ⟨n, hn⟩ := ht
+    simp only [exposureOf, exposure, keptStable, scaledV, scaled, hn, intVal] at hlt ⊢
+    omega
+  case daemonSet =>
+    rename_i hlt
+    simp only [Option.some.injEq] at hw; subst hw
+    obtain ⟨n, hn⟩ := ht
+    simp only [exposureOf, exposure, keptStable, scaledV, scaled, hn, intVal] at hlt ⊢
+    omega
+  case depPartition =>
+    rename_i hlt
+    simp only [Option.some.injEq] at hw; subst hw
+    simp only [exposureOf]; omega
+  case depCanary =>
+    rename_i hlt
+    simp only [Option.some.injEq] at hw; subst hw
+    simp only [exposureOf]
+    have : intVal (int c.desired) = c.desired := rfl
+    omega
+  case depBlueGreen =>
+    rename_i hlt
+    simp only [Option.some.injEq] at hw; subst hw
+    simp only [exposureOf]; omega
+  case csBlueGreen =>
+    rename_i hlt
+    simp only [Option.some.injEq] at hw; subst hw
+    simp only [exposureOf]; omega
+
+/-! ### non-vacuity (tests on literals, not the ∀ claims) -/
+example : exposureOf .cloneSet (desKnob .cloneSet 3 (pct 34) none) 3 = 2 ∧ calcBatchReplicas 3 (pct 34) = 2 := by decide
+example : exposureOf .cloneSet (desKnob .cloneSet 199 (pct 50) none) 199 = 101 ∧ calcBatchReplicas 199 (pct 50) = 100 := by decide
+example : NnValid .cloneSet 10 (some 3) := by
+  refine ⟨by decide, ?_, Or.inl rfl⟩
+  intro k hk; cases hk; decide
+example : upgrade .cloneSet (Ctx.mk 10 0 0 5 5 (pct 100) (pct 50) none) = some (pct 50) := by decide
 
 end RV.Props.C01
